@@ -18,6 +18,9 @@ pub enum SizeRegime {
 pub enum StrRegime {
     Ascii,
     Multi,
+    /// NUL, control characters, whitespace at the ends, BOM, U+FFFD,
+    /// combining marks: legal UTF-8 that invites "helpful" normalisation
+    Awkward,
 }
 
 #[derive(Clone, Copy, Debug, PartialEq, Eq, Serialize, Deserialize)]
@@ -65,7 +68,7 @@ impl Swarm {
                 SizeRegime::Typical,
                 SizeRegime::Boundary,
             ]),
-            strings: *rng.pick(&[StrRegime::Ascii, StrRegime::Multi]),
+            strings: *rng.pick(&[StrRegime::Ascii, StrRegime::Multi, StrRegime::Awkward]),
             values: *rng.pick(&[ValRegime::Uniform, ValRegime::Extremes]),
             hidden_16: *rng.pick(&[0u8, 0, 1, 2, 8]),
             max_avps: *rng.pick(&[0usize, 1, 2, 3, 4, 6, 10, 24]),
@@ -97,12 +100,15 @@ pub fn var_len(rng: &mut Rng, s: SizeRegime, max: usize) -> usize {
 
 /// Valid UTF-8 of exactly `n` octets.
 pub fn utf8_of_len(rng: &mut Rng, n: usize, regime: StrRegime) -> Vec<u8> {
+    if regime == StrRegime::Awkward {
+        return awkward_utf8(rng, n);
+    }
     let mut out = Vec::with_capacity(n);
     while out.len() < n {
         let room = n - out.len();
         let w = match regime {
             StrRegime::Ascii => 1,
-            StrRegime::Multi => rng.urange(1, 4).min(room),
+            StrRegime::Multi | StrRegime::Awkward => rng.urange(1, 4).min(room),
         };
         let cp: u32 = match w {
             1 => rng.range(0x20, 0x7E) as u32,
@@ -127,6 +133,44 @@ pub fn utf8_of_len(rng: &mut Rng, n: usize, regime: StrRegime) -> Vec<u8> {
             out.push(b'x');
         }
     }
+    out
+}
+
+/// Exactly `n` octets of valid UTF-8 built from characters that tempt a
+/// codec into trimming or terminating: runs of NUL / space / newline at
+/// either end, control characters, DEL, BOM, U+FFFD, combining marks.
+pub fn awkward_utf8(rng: &mut Rng, n: usize) -> Vec<u8> {
+    const PIECES: [&str; 14] = [
+        "\0", " ", "\n", "\r\n", "\t", "\u{7f}", "\u{1}", "\u{feff}", "\u{fffd}", "\u{301}", "a", "Z", "\u{e9}", "\u{a0}",
+    ];
+    let mut out: Vec<u8> = Vec::with_capacity(n);
+    // a run of one trimmable character at the front and at the back
+    let lead = *rng.pick(&["\0", " ", "\n", "", ""]);
+    let trail = *rng.pick(&["\0", "\0", " ", "\n", "\r\n", ""]);
+    let lead_n = if lead.is_empty() { 0 } else { rng.urange(0, 3) };
+    let trail_n = if trail.is_empty() { 0 } else { rng.urange(0, 3) };
+    let mut tail: Vec<u8> = Vec::new();
+    for _ in 0..trail_n {
+        tail.extend_from_slice(trail.as_bytes());
+    }
+    if tail.len() > n {
+        tail.truncate(0);
+    }
+    for _ in 0..lead_n {
+        if out.len() + lead.len() + tail.len() <= n {
+            out.extend_from_slice(lead.as_bytes());
+        }
+    }
+    while out.len() + tail.len() < n {
+        let p = *rng.pick(&PIECES);
+        if out.len() + tail.len() + p.len() <= n {
+            out.extend_from_slice(p.as_bytes());
+        } else {
+            out.push(b'x');
+        }
+    }
+    out.extend_from_slice(&tail);
+    debug_assert_eq!(out.len(), n);
     out
 }
 
